@@ -234,6 +234,9 @@ def generate(rng, n, tier):
         ("part", {"type": "map_value", 5: 1}, True, "an unknown part argument"),
         ("cond", {"value.__class__.mro": None}, True, "an unknown pre-processor"),
         ("cond", {"index.length.equal_to": 1}, True, "a pre-processor the datum kind does not have"),
+        # keyword names that clash with a parameter on the way to the stored callable: Python's TypeError
+        ("cond", {"value.items_contain": {"cls": 1}}, False, "mutation"), ("cond", {"value.items_contain": {"self": 1}}, False, "mutation"),
+        ("cond", {"value.items_contain": {"callable": 1, "a": 2}}, False, "mutation"), ("cond", {"value.items_contain": {"func": 1}}, False, "mutation"),
         ("part", {"type": "list_value", "index.len.lt": 2}, True, "a pre-processor the datum kind does not have"),
     ]
     for kind, spec, must, what in fixed:
